@@ -647,6 +647,9 @@ class X12SegmentDataNode(X12DataNode):
         @raise X12PathError: On blank or invalid path
         """
         (curr, new_path_str) = self._get_start_node(x12_path_str)
+        if curr is not self:
+            # '../' left this segment: the rest of the path is relative to the enclosing loop
+            return curr.get_first_matching_segment(new_path_str)
         xpath = path.X12Path(new_path_str)
         if len(xpath.loop_list) != 0:
             raise errors.X12PathError('This X12 Path should not contain loops: %s' % (x12_path_str))
@@ -719,16 +722,6 @@ class X12SegmentDataNode(X12DataNode):
         ret.start_loops = list(self.start_loops)
         ret.end_loops = list(self.end_loops)
         return ret
-
-    def select(self, x12_path_str):
-        """
-        Segment nodes have no sub-nodes so return None
-        @param x12_path_str: Relative X12 path - 2400/2430
-        @type x12_path_str: string
-        @return: Iterator on the matching sub-nodes, relative to the instance.
-        @rtype: L{node<x12context.X12DataNode>}
-        """
-        return []
 
     def _select(self, x12path):
         """
